@@ -41,6 +41,9 @@ pub struct Cfg {
     pub non_ascii_text: bool,
     /// restrict output statements (the aggregate profile emits every leaf)
     pub observe_all: bool,
+    /// never call the unit-returning `out_*` host functions (the IR evaluator
+    /// cannot call functions that return nothing)
+    pub no_out: bool,
     /// known-finding patterns the random stream must not contain
     pub avoid: Avoid,
     /// profile name for coverage tags
@@ -84,6 +87,7 @@ impl Cfg {
             fstrings: false,
             non_ascii_text: false,
             observe_all: false,
+            no_out: false,
             avoid: Avoid::default(),
             name: "scalar",
         }
@@ -1303,6 +1307,9 @@ impl Gen {
 
     /// Statements that make the value of `e` observable: one `out_*` per leaf.
     pub fn observe(&mut self, e: Expr, depth: u32, out: &mut Vec<Stmt>) {
+        if self.cfg.no_out {
+            return;
+        }
         let ty = e.ty.clone();
         let host = |name: &str, a: Expr| Stmt::Expr(Expr::new(Ty::Unit, EK::Host(name.into(), vec![a])));
         match &ty {
